@@ -19,6 +19,18 @@ Catalog(path) and what it holds is classified (closed / the untouched old catalo
 anything else) and compared with the model (c09_case_held, held_of) and with the clause cl_open_exact: a path
 that opens holds the untouched old catalog or the complete input of a successful creation, never a part or a mix
 (theorems C09_openable_only_old_or_complete, C09_fix_meets_open_spec).
+
+CALL OPTIONS.  The keywords of from_dataframe / from_file / from_random that are not part of the input choose the
+code path, never the outcome: progress=True wraps the chunk iterator (and the patch iterator of load_patches) in the
+progress display, degrees=False takes the same coordinates in radians, the chunk size may be 1, equal to the input,
+larger than it or omitted, patch_num (+ probe_size) makes a first pass over the whole reader before anything is
+written.  The model has no such parameter (Model/FailStop.v: the main loop consumes `reader_stream`; the progress
+display is the stream function `indicator`, proved to be the identity in C09_progress_display_transparent, so
+C09_options_do_not_matter; a display that ends the stream when its source raised is refuted in
+C09_swallowing_display_refuted).  So every fault kind x position x place x mode is run again with the progress
+display on (and the other options drawn at random), each such case next to its TWIN - the same call with the default
+options - and all of them are judged by the same c09_case_held against the same scenario; from_random gets a fault
+position of its own (a generator whose k-th draw fails).
 """
 import hashlib
 import json
@@ -59,8 +71,10 @@ ASSUMPTIONS = [
     "have been written in reality; only the absence of patch_ids.bin is compared)",
 ]
 RULE = ("cases = (source, n, chunksize, workers, patch mode, fault kind, fault column, chunk position, pre-existing state of "
-        "the cache path, overwrite, empty centre); distinct by that tuple; non-trivial when a fault is present, the path "
-        "pre-exists / is unusable, or the run is parallel (anything but a plain sequential creation)")
+        "the cache path, overwrite, empty centre, call options: progress display, degrees / radians, chunk size passed / "
+        "omitted / larger than the input, probe size); distinct by that tuple; non-trivial when a fault is present, the path "
+        "pre-exists / is unusable, the run is parallel, or an option differs from its default (anything but a plain "
+        "sequential creation with default options)")
 
 HEADER = "From Verif Require Import Prelude FailStop.\nOpen Scope nat_scope.\n"
 PY = "/venv/bin/python"
@@ -74,9 +88,30 @@ JOBS = 10
 # ----------------------------------------------------------------------------- case list
 def base_spec(**kw):
     s = dict(n=14, cs=5, workers=1, nthreads=4, source="df", patch="centers", ncent=3, weights=True, redshifts=True,
-             fault=dict(kind="none", chunk=0, col="w"), empty_centre=False, pre="absent", overwrite=False, dseed=1)
+             fault=dict(kind="none", chunk=0, col="w"), empty_centre=False, pre="absent", overwrite=False, dseed=1,
+             opts=None)
     s.update(kw)
+    o = dict(drv.DEFAULT_OPTS)
+    o.update(s["opts"] or {})
+    s["opts"] = o
     return s
+
+
+def nondefault_opts(spec):
+    """labels of the call options that differ from their defaults (and of the first-pass patch mode)"""
+    o = spec["opts"]
+    out = []
+    if o["progress"]:
+        out.append("progress")
+    if not o["degrees"]:
+        out.append("radians")
+    if o["cs_pass"] != "same":
+        out.append("chunksize-" + ("omitted" if o["cs_pass"] == "none" else "over"))
+    elif spec["cs"] == 1 and spec["n"] > 1:
+        out.append("chunksize-1")
+    if spec["patch"] == "num":
+        out.append("patch_num/probe=%s" % ("auto" if o["probe_size"] < 0 else "n" if o["probe_size"] == spec["n"] else "small"))
+    return out
 
 
 SHAPES = [(14, 5), (9, 3), (12, 4), (7, 3)]          # three chunks each
@@ -85,6 +120,10 @@ OVER_SHAPES = [(14, 5), (12, 4), (23, 5), (17, 4), (9, 3)]   # three to five chu
 OVER_FAULTS = ["value", "worker", "unequal", "id"]
 OLD_SIZES = ["catalog_fewer", "catalog_same", "catalog_more"]
 READER_FAULTS = [("value", None), ("unequal", "w"), ("idneg", "pid"), ("idbig", "pid"), ("idwrap", "pid"), ("idedge", "pid")]
+CS1_SHAPES = [(7, 1), (5, 1), (9, 1)]                # one record per chunk (parallel: splits without any record)
+ONE_SHAPES = [(7, 7), (12, 12), (9, 9)]              # the whole input is one chunk: first = middle = last
+TAIL_SHAPES = [(14, 13), (9, 8), (11, 5)]            # the last chunk holds a single record
+RND = dict(source="random", weights=False, redshifts=False, ncent=2)
 
 
 def nchunks(spec):
@@ -95,36 +134,142 @@ def specs(ctx):
     rng = ctx.rng
     out = []
 
-    def add(**kw):
-        s = base_spec(**kw)
+    def add(base=None, **kw):
+        s = base_spec(**dict(base or {}, **kw))
         if "shape" in s:
             s["n"], s["cs"] = s.pop("shape")
+        assert s["opts"]["cs_pass"] == "same" or s["cs"] >= s["n"], s     # cs is the effective chunk size
         s["dseed"] = rng.randrange(10 ** 6)
         out.append(s)
+        return s
 
     def shape():
         return rng.choice(SHAPES)
 
-    def reader_fault(kind, pos, workers, shp=None):
+    def reader_fault(kind, pos, workers, shp=None, **more):
         shp = shp or shape()
         nch = -(-shp[0] // shp[1])
         chunk = {"first": 0, "middle": nch // 2, "last": nch - 1}[pos]
         if kind == "value":
             k, col = rng.choice(VALUE_FAULTS)
-            add(shape=shp, workers=workers, fault=dict(kind=k, chunk=chunk, col=col),
-                patch=rng.choice(["centers", "name"]))
+            kw = dict(shape=shp, workers=workers, fault=dict(kind=k, chunk=chunk, col=col),
+                      patch=rng.choice(["centers", "name"]))
         elif kind == "unequal":
-            add(shape=shp, workers=workers, source="frame", fault=dict(kind="unequal", chunk=chunk, col=rng.choice(["w", "z", "dec"])),
-                patch=rng.choice(["centers", "name"]))
+            kw = dict(shape=shp, workers=workers, source="frame", fault=dict(kind="unequal", chunk=chunk, col=rng.choice(["w", "z", "dec"])),
+                      patch=rng.choice(["centers", "name"]))
+        elif kind == "genfail":     # from_random: the generator cannot deliver its draw number `chunk`
+            kw = dict(RND, shape=shp, workers=workers, fault=dict(kind="genfail", chunk=chunk, col="ra"))
+        elif kind == "worker":
+            kw = dict(shape=shp, workers=workers, fault=dict(kind="worker", chunk=chunk, col="ra"),
+                      patch=rng.choice(["centers", "name"]))
         else:
-            add(shape=shp, workers=workers, patch="name", fault=dict(kind=kind, chunk=chunk, col="pid"))
+            kw = dict(shape=shp, workers=workers, patch="name", fault=dict(kind=kind, chunk=chunk, col="pid"))
+        kw.update(more)
+        return add(**kw)
 
-    def over_fault(kind, pos, workers, old, overwrite, shp=None):
+    def draw_opts(progress=None, cs_pass="same"):
+        """call options: the progress display as asked (or a coin), the unit of the coordinates at random"""
+        return dict(progress=(rng.random() < 0.5) if progress is None else progress, degrees=rng.random() < 0.65,
+                    cs_pass=cs_pass)
+
+    def with_twin(s):
+        """the same call (same data) with the default options next to it"""
+        if s["opts"] == drv.DEFAULT_OPTS and s["patch"] != "num":
+            return
+        t = json.loads(json.dumps(s))
+        t["opts"] = dict(drv.DEFAULT_OPTS)
+        if t["patch"] == "num":
+            t["patch"] = "centers"
+        t["twin_of"] = len(out) - 1
+        out.append(t)
+
+    def options_block(workers_list, full):
+        """every fault kind x chunk position x place x mode with the progress display ON (coordinates in degrees or
+        radians at random); chunk-size extremes; the first-pass patch mode (patch_num / probe_size); from_random with
+        a failing generator.  `full`: every kind in every cell (thorough), else three rotating kinds per cell."""
+        par_ws = [w for w in workers_list if w > 1]
+        pw = lambda: rng.choice(par_ws)  # noqa: E731
+        kinds = [k for k, _ in READER_FAULTS] + ["genfail", "worker"]
+        k = rng.randrange(len(kinds))
+        # (A) progress display x fault kind x position x mode, each with its twin
+        for pos in positions:
+            for workers in workers_list:
+                cell = kinds if full else [kinds[(k + j) % len(kinds)] for j in range(3)]
+                k += 3
+                for kind in cell:
+                    shp = rng.choice(OVER_SHAPES) if kind != "genfail" else rng.choice([(80, 30), (50, 20), (64, 16)])
+                    with_twin(reader_fault(kind, pos, workers, shp=shp, opts=draw_opts(progress=True)))
+        for j, pos in enumerate(positions):          # from_file
+            for workers in (workers_list if full else [workers_list[j % len(workers_list)]]):
+                kk, col = rng.choice(VALUE_FAULTS)
+                shp = rng.choice(OVER_SHAPES)
+                nch = -(-shp[0] // shp[1])
+                with_twin(add(shape=shp, workers=workers, source="hdf5", opts=draw_opts(progress=True),
+                              fault=dict(kind=kk, chunk={"first": 0, "middle": nch // 2, "last": nch - 1}[pos], col=col)))
+        for workers in workers_list:
+            add(workers=workers, fault=dict(kind=rng.choice(["final", "final_late"]), chunk=0, col="ra"), opts=draw_opts(progress=True))
+            add(workers=workers, fault=dict(kind="missing", chunk=0, col=rng.choice(["w", "z", "dec"])), opts=draw_opts(progress=True))
+            add(workers=workers, empty_centre=True, opts=draw_opts(progress=True))
+            add(workers=workers, patch="none", opts=draw_opts(progress=True))
+            # nothing wrong: exactly the input, whatever the options
+            add(workers=workers, shape=rng.choice(OVER_SHAPES), patch=rng.choice(["centers", "name"]), opts=draw_opts(progress=True))
+            add(workers=workers, shape=shape(), source="hdf5", opts=draw_opts(progress=True))
+            add(RND, workers=workers, shape=(80, 30), opts=draw_opts(progress=True))
+            add(workers=workers, shape=shape(), patch=rng.choice(["centers", "name"]), opts=dict(progress=False, degrees=False))
+        # the progress display while a valid catalog is being overwritten / has to stay
+        for j, pos in enumerate(positions):
+            for workers in (workers_list if full else [1, pw()]):
+                over_fault(rng.choice(OVER_FAULTS), pos, workers, rng.choice(OLD_SIZES), True, opts=draw_opts(progress=True))
+            over_fault(rng.choice(OVER_FAULTS), pos, workers_list[j % len(workers_list)], rng.choice(OLD_SIZES), False,
+                       opts=draw_opts(progress=True))
+        for workers in ([1, pw()] if not full else workers_list):
+            add(workers=workers, pre=rng.choice(OLD_SIZES), overwrite=True, shape=shape(), patch=rng.choice(["centers", "name"]),
+                opts=draw_opts(progress=True))
+            add(workers=workers, pre="dir_other", overwrite=True, opts=draw_opts(progress=True))
+        # (B) chunk-size extremes: one record per chunk, the whole input in one chunk (size given, omitted, larger
+        # than the input), a last chunk of a single record
+        k2 = rng.randrange(len(kinds))
+        for pos in positions:
+            for workers in ([1, pw()] if not full else workers_list):
+                kind = kinds[k2 % len(kinds)]
+                k2 += 1
+                shp = rng.choice(CS1_SHAPES) if kind != "genfail" else (6, 1)
+                reader_fault(kind, pos, workers, shp=shp, opts=draw_opts())
+        for cs_pass in ("same", "none", "over"):
+            for workers in ([1, pw()] if not full else workers_list):
+                kind = kinds[k2 % len(kinds)]
+                k2 += 1
+                reader_fault(kind, "first", workers, shp=rng.choice(ONE_SHAPES), opts=draw_opts(cs_pass=cs_pass))
+            add(workers=rng.choice(workers_list), shape=rng.choice(ONE_SHAPES), patch=rng.choice(["centers", "name"]),
+                opts=draw_opts(cs_pass=cs_pass))
+        add(workers=rng.choice(workers_list), shape=(9, 9), source="hdf5", opts=draw_opts(cs_pass="none"))
+        add(RND, workers=rng.choice(workers_list), shape=(40, 40), opts=draw_opts(cs_pass="none"))
+        for workers in ([1, pw()] if not full else workers_list):
+            add(workers=workers, shape=rng.choice(CS1_SHAPES), patch=rng.choice(["centers", "name"]), opts=draw_opts())
+            reader_fault(kinds[k2 % len(kinds)], "last", workers, shp=rng.choice(TAIL_SHAPES) if kinds[k2 % len(kinds)] != "genfail" else (31, 30),
+                         opts=draw_opts())
+            k2 += 1
+        # (C) patch_num: the patch centres come from a first pass over the reader (get_probe), so a reader fault
+        # strikes before the cache path is touched; a worker / writer fault strikes in the second pass
+        for workers in ([1, pw()] if not full else workers_list):
+            for probe in ((-1, 30, "n") if full else (rng.choice([-1, 30]), "n")):
+                shp = shape()
+                with_twin(add(workers=workers, shape=shp, patch="num", opts=dict(draw_opts(), probe_size=shp[0] if probe == "n" else probe)))
+            for pos in (positions if full else [rng.choice(positions)]):
+                reader_fault(rng.choice(["value", "unequal"]), pos, workers, patch="num", opts=dict(draw_opts(), probe_size=30))
+            reader_fault("worker", rng.choice(positions), workers, patch="num", opts=dict(draw_opts(), probe_size=30))
+            old = rng.choice(OLD_SIZES)
+            reader_fault("value", rng.choice(positions), workers, patch="num", pre=old, overwrite=True, opts=dict(draw_opts(), probe_size=30))
+            add(workers=workers, patch="num", pre=old, overwrite=True, shape=shape(), opts=dict(draw_opts(), probe_size=30))
+            add(RND, workers=workers, shape=(80, 30), patch="num", opts=dict(draw_opts(), probe_size=rng.choice([20, 80])))
+        add(workers=rng.choice(workers_list), shape=shape(), source="hdf5", patch="num", opts=dict(draw_opts(), probe_size=30))
+
+    def over_fault(kind, pos, workers, old, overwrite, shp=None, opts=None):
         """a fault of the given kind / position while the target holds a valid catalog of `old` size"""
         shp = shp or rng.choice(OVER_SHAPES)
         nch = -(-shp[0] // shp[1])
         chunk = {"first": 0, "middle": nch // 2, "last": nch - 1}[pos]
-        kw = dict(shape=shp, workers=workers, pre=old, overwrite=overwrite)
+        kw = dict(shape=shp, workers=workers, pre=old, overwrite=overwrite, opts=opts)
         if kind == "value":
             kk, col = rng.choice(VALUE_FAULTS)
             add(fault=dict(kind=kk, chunk=chunk, col=col), patch=rng.choice(["centers", "name"]), **kw)
@@ -185,6 +330,7 @@ def specs(ctx):
             add(workers=workers, pre=rng.choice(OLD_SIZES), overwrite=True, empty_centre=True)
             add(workers=workers, pre=rng.choice(OLD_SIZES), overwrite=False,
                 fault=dict(kind="nan", chunk=2, col=rng.choice(["ra", "w"])))
+        options_block([1, par()], full=False)
         return out
     # ---- thorough: the full grid
     for workers in (1, 2, 3):
@@ -248,6 +394,7 @@ def specs(ctx):
             add(workers=workers, pre=old, overwrite=True, source="hdf5", fault=dict(kind="nan", chunk=2, col="ra"))
         add(workers=workers, pre="catalog_same", overwrite=True, **rnd)
         add(workers=workers, fault=dict(kind="final_late", chunk=0, col="ra"))
+    options_block([1, 2, 3], full=True)
     return out
 
 
@@ -276,6 +423,12 @@ def scenario(spec):
         fault = ("InWorker", f["chunk"], "Injected")
     elif k in ("final", "final_late"):
         fault = ("WriterFinal", 0, "Injected")
+    elif k == "genfail":
+        fault = ("InReader", f["chunk"], "Injected")
+    if spec["patch"] == "num" and fault is not None and fault[0] == "InReader" and spec["source"] != "random":
+        # the centres are computed from a first pass over the whole reader (create_patch_centers -> get_probe):
+        # the reader fault strikes there, before the writer exists
+        fault, early = None, True
     if spec["pre"] in drv.CATALOG_PRES:
         return fault, "(old_catalog %s)" % fq.nat(drv.old_npatch(spec)), early
     pre = {"absent": "TAbsent", "noparent": "TNoParent", "parentfile": "TNoParent", "file": "TFile",
@@ -443,6 +596,8 @@ def expected_of(spec):
     if spec["redshifts"]:
         fields.append(cols["z"])
     rows = [tuple(float(x).hex() for x in row) for row in zip(*fields)]
+    if spec["patch"] == "num":
+        return sorted(rows), None      # the centres are the implementation's choice (k-means); only the records are compared
     if spec["patch"] == "name":
         pids = [int(x) for x in cols["pid"]]
     else:
@@ -532,15 +687,18 @@ def signatures(spec, code, obs_kind, held="HClosed", held_how=""):
     if place in ("InReader", "InWorker"):
         ch, nch = fault[1], nchunks(spec)
         pos = "@first" if ch == 0 else "@last" if ch == nch - 1 else "@middle"
-    fshape = "%s%s/%s" % (spec["fault"]["kind"], pos, spec["pre"])
+    nd = nondefault_opts(spec)
+    osfx = "" if not nd else "/with:" + "+".join(nd)       # the call options are part of the failing call shape
+    fshape = "%s%s/%s%s" % (spec["fault"]["kind"], pos, spec["pre"], osfx)
     if spec["fault"]["kind"] != "none":
-        shape = spec["fault"]["kind"] + ("/" + spec["source"] if spec["source"] not in ("df", "frame") else "")
+        shape = spec["fault"]["kind"] + (pos if nd else "") + ("/" + spec["source"] if spec["source"] not in ("df", "frame") else "")
     elif spec["empty_centre"]:
         shape = "empty-centre"
     elif spec["patch"] == "none":
         shape = "no-patch-method"
     else:
         shape = "%s/%s" % (spec["pre"], "overwrite" if spec["overwrite"] else "no-overwrite")
+    shape += osfx
     sigs = []
     if code & 4:
         if par and place in ("InReader", "InWorker") and not early:
@@ -589,13 +747,18 @@ def signatures(spec, code, obs_kind, held="HClosed", held_how=""):
 
 def describe(spec):
     f = spec["fault"]
-    parts = ["from_%s" % {"df": "dataframe", "frame": "dataframe(frame double)", "hdf5": "file(hdf5)", "random": "random"}[spec["source"]],
+    parts = ["from_%s" % {"df": "dataframe", "frame": "dataframe(frame double)", "hdf5": "file(hdf5)",
+                          "random": "random" + ("(generator fails)" if f["kind"] == "genfail" else "")}[spec["source"]],
              "n=%d chunksize=%d max_workers=%d" % (spec["n"], spec["cs"], spec["workers"]), "patch=%s" % spec["patch"]]
     if f["kind"] != "none":
         parts.append("fault=%s col=%s chunk=%d/%d" % (f["kind"], f["col"], f["chunk"], nchunks(spec)))
     if spec["empty_centre"]:
         parts.append("a centre without any object")
     parts.append("target=%s overwrite=%s" % (spec["pre"], spec["overwrite"]))
+    o = spec["opts"]
+    parts.append("progress=%s degrees=%s chunksize keyword=%s%s" % (
+        o["progress"], o["degrees"], {"same": spec["cs"], "none": "omitted", "over": spec["n"] + 3}[o["cs_pass"]],
+        " patch_num=%d probe_size=%d" % (spec["ncent"], o["probe_size"]) if spec["patch"] == "num" else ""))
     return ", ".join(parts)
 
 
@@ -622,7 +785,7 @@ def _run(ctx):
     ctx.log("runs done")
     terms, meta = [], []
     for idx, (spec, res) in enumerate(zip(cases, results)):
-        key = tuple(sorted((k, json.dumps(v, sort_keys=True)) for k, v in spec.items() if k not in ("cache", "dseed", "nthreads")))
+        key = tuple(sorted((k, json.dumps(v, sort_keys=True)) for k, v in spec.items() if k not in ("cache", "dseed", "nthreads", "twin_of")))
         if res["class"] == "driver-error":
             ctx.count(key=key, nontrivial=False, kind="driver-error")
             ctx.obligation("driver:case_%03d" % idx, False, res.get("detail", ""))
@@ -649,11 +812,17 @@ def _run(ctx):
                    before=res["before"] if not untouched else "(same as after)", after=res["after"])
         meta.append((idx, spec, obs, obs_kind))
         fault, pre, early = scenario(spec)
-        nontrivial = par or fault is not None or early or spec["pre"] != "absent" or spec["empty_centre"]
+        nd = nondefault_opts(spec)
+        nontrivial = par or fault is not None or early or spec["pre"] != "absent" or spec["empty_centre"] or bool(nd)
+        for lab in nd:
+            ctx.bump("option:" + lab.split("/")[0])
+        if nd and spec["fault"]["kind"] != "none":
+            ctx.bump("fault-under-options:%s:%s" % ("+".join(x.split("/")[0] for x in nd), "par" if par else "seq"))
         ctx.count(key=key, nontrivial=nontrivial,
                   kind="%s/%s/%s" % ("par" if par else "seq", spec["fault"]["kind"] if spec["fault"]["kind"] != "none" else
                                      ("empty-centre" if spec["empty_centre"] else "no-method" if spec["patch"] == "none" else spec["pre"]),
-                                     res["class"] + ("" if not res.get("exc_type") else ":" + res["exc_type"])))
+                                     res["class"] + ("" if not res.get("exc_type") else ":" + res["exc_type"])
+                                     + ("" if not nd else " [" + "+".join(x.split("/")[0] for x in nd) + "]")))
         ctx.bump("outcome:" + res["class"])
         if res.get("extensions"):
             ctx.bump("time-bound-extended", res["extensions"])
@@ -663,6 +832,22 @@ def _run(ctx):
         ctx.sample(dict(case=describe(spec), observed={k: v for k, v in obs.items() if k not in ("before", "after")}), limit=4)
     codes = ctx.shards("Cases_C09", HEADER, terms, shard=40)
     follows = {"cur": 0, "fix": 0, "both": 0, "neither": 0}
+    # the same call with the default options (twin), for the evidence and for the description of a failure
+    obs_of = {idx: obs for (idx, spec, obs, obs_kind) in meta}
+    twin_of = {spec["twin_of"]: idx for (idx, spec, obs, obs_kind) in meta if "twin_of" in spec}
+
+    def outcome_text(o):
+        return "%s%s, Catalog(path) afterwards: %s" % (
+            o["outcome"], " " + (o["exception"] or "") if o["outcome"] == "raised" else
+            " (%s)" % o["returned"] if o["outcome"] == "returned" else "", o["path_holds"])
+
+    for a, b in twin_of.items():
+        if a in obs_of:
+            oa, ob_ = obs_of[a], obs_of[b]
+            same = (oa["outcome"], oa["returned"], oa["path_holds"]) == (ob_["outcome"], ob_["returned"], ob_["path_holds"])
+            ctx.bump("options-vs-default-twin:" + ("same outcome class" if same else "DIFFERENT outcome class"))
+            if same and oa["exception"] != ob_["exception"]:
+                ctx.bump("options-vs-default-twin:same class, other exception type")
     for (idx, spec, obs, obs_kind), c in zip(meta, codes):
         if c is None:
             continue
@@ -671,9 +856,14 @@ def _run(ctx):
         replay = dict(case=describe(spec), spec={k: v for k, v in spec.items() if k != "cache"}, model_scenario=scen_term(spec),
                       observed=obs, code=c,
                       rerun="write spec (plus a 'cache' path) to a json file; PYTHONPATH=%s %s %s spec.json out.json" % (REPO_SRC, PY, DRIVER))
+        tw = ""
+        if idx in twin_of and twin_of[idx] in obs_of:
+            t = obs_of[twin_of[idx]]
+            replay["same_call_with_default_options"] = {k: v for k, v in t.items() if k not in ("before", "after")}
+            tw = " [this call: %s; the same call with the default options: %s]" % (outcome_text(obs), outcome_text(t))
         if c & 2 or c & 512:
             for sig, what in signatures(spec, c, obs_kind, obs["path_holds"], obs["path_holds_detail"]):
-                ctx.fail(sig, "%s: %s" % (describe(spec), what), replay, case=idx)
+                ctx.fail(sig, "%s: %s%s" % (describe(spec), what, tw), replay, case=idx)
         if c & 1 or c & 256:
             ctx.disagree("Cases_C09", idx, dict(code=c, replay=replay))
         if c & 1024:
